@@ -2,7 +2,7 @@
 
 package common
 
-import "sync"
+import stdsync "sync"
 
 // Engine-side replacements (redirect table) for assembly-backed std leaves. The engine maps a call to
 // function F to vstub_<sanitised name of F> when such a function exists in the harness package; the native
@@ -137,23 +137,56 @@ func vstub_errors_Is(err, target error) bool {
 }
 
 // sync.Pool without per-P caches: Get allocates through New, Put drops.
-func vstub_sync_Pool_Get(p *sync.Pool) any {
+func vstub_sync_Pool_Get(p *stdsync.Pool) any {
 	if p.New != nil {
 		return p.New()
 	}
 	return nil
 }
-func vstub_sync_Pool_Put(p *sync.Pool, x any) {}
+func vstub_sync_Pool_Put(p *stdsync.Pool, x any) {}
 
 // sync.Once without atomics (sequential model)
-var vstubOnceDone map[*sync.Once]bool
+var vstubOnceDone map[*stdsync.Once]bool
 
-func vstub_sync_Once_Do(o *sync.Once, f func()) {
+func vstub_sync_Once_Do(o *stdsync.Once, f func()) {
 	if vstubOnceDone == nil {
-		vstubOnceDone = map[*sync.Once]bool{}
+		vstubOnceDone = map[*stdsync.Once]bool{}
 	}
 	if !vstubOnceDone[o] {
 		vstubOnceDone[o] = true
 		f()
 	}
 }
+
+// sync.RWMutex model (one record per mutex): readers count and writer flag; blocking goes through vBlockUntil, so a
+// goroutine that waits for itself is reported as a deadlock by the engine.
+type vRW struct {
+	readers int
+	writer  bool
+}
+
+var vRWs map[*stdsync.RWMutex]*vRW
+
+func vrw(m *stdsync.RWMutex) *vRW {
+	if vRWs == nil {
+		vRWs = map[*stdsync.RWMutex]*vRW{}
+	}
+	s := vRWs[m]
+	if s == nil {
+		s = &vRW{}
+		vRWs[m] = s
+	}
+	return s
+}
+func vstub_sync_RWMutex_RLock(m *stdsync.RWMutex) {
+	s := vrw(m)
+	vBlockUntil(func() bool { return !s.writer })
+	s.readers++
+}
+func vstub_sync_RWMutex_RUnlock(m *stdsync.RWMutex) { vrw(m).readers-- }
+func vstub_sync_RWMutex_Lock(m *stdsync.RWMutex) {
+	s := vrw(m)
+	vBlockUntil(func() bool { return !s.writer && s.readers == 0 })
+	s.writer = true
+}
+func vstub_sync_RWMutex_Unlock(m *stdsync.RWMutex) { vrw(m).writer = false }
